@@ -175,5 +175,5 @@ Lemma sizev2_toml_witness :
 Proof. split; vm_compute; reflexivity. Qed.
 
 Lemma ssizev2_overflow_accepted_witness :
-  unmarshal TSV2 (B "-9223372036854775809") = Some (- 9223372036854775808)%Z.
+  unmarshal TSV2 (45 :: dec 9223372036854775809) = Some (- 9223372036854775808)%Z.
 Proof. vm_compute. reflexivity. Qed.
